@@ -1,3 +1,4 @@
+import Noodles.Props.C05Fast
 import Noodles.Props.C05Reenc
 import Noodles.Bam.Record
 import Noodles.Bam.RecordSpec
